@@ -54,13 +54,13 @@ man = dict(
         guard="verif",
         enable="no source hooks in /repo: harness files (//go:build verif) live under /verif/harness and are injected with `go test -tags verif -overlay run/<id>/overlay_*.json -modfile run/go.verif.mod`",
         baseline_off_cmd="cd /repo && GOFLAGS=-mod=mod go test -json -vet=off -count=1 -timeout 25m ./...",
-        source_commits=json.load(open(os.path.join(V, "known_findings.json"))).get("fix_commits", []) if os.path.exists(os.path.join(V, "known_findings.json")) else [],
+        source_commits=[],
         add_only=True),
     engines=[dict(name="coq-proof+correspondence", path="/verif/check",
                   serves_properties=[c["property_id"] for c in checks],
                   kind_free_text="Coq 8.16.1 development under /verif/coq (models, proofs, property theorems); python driver lib/vf/driver.py builds it, checks every registered theorem with Print Assumptions, runs the Go harness against /repo's working tree through go test -overlay, evaluates model + property checker on the implementation traces by vm_compute")],
     checks=checks,
-    notes="See DESIGN.md. known_findings.json lists recorded defects (open) and repaired ones (fixed).",
+    notes="See DESIGN.md (section 12: as built) and STATUS.md. No source hooks exist in /repo (hooks.source_commits is empty): harnesses are overlay-injected. Genuine defects found by the checks were repaired by unguarded `fix:` commits in /repo: " + ", ".join(fix_commits) + ". known_findings.json lists recorded defects (open) and repaired ones (fixed).",
     not_applicable=na)
 json.dump(man, open(os.path.join(V, "MANIFEST.json"), "w"), indent=1)
 print("checks:", [c["property_id"] for c in checks], "not_applicable:", [n["property_id"] for n in na])
